@@ -651,6 +651,9 @@ class ContactlessFrontend(object):
                     while not terminate():
                         try:
                             tag_cmd = tag.send_response(tag_rsp, None)
+                            if tag_cmd is None:
+                                log.debug("link broken, no command received")
+                                break
                             tag_rsp = tag.process_command(tag_cmd)
                         except nfc.clf.BrokenLinkError as error:
                             log.debug(error)
